@@ -208,6 +208,8 @@ def case_solve(ctx, p):
     res = {}
     for mod, m in ((ctx.T, "tools"), (ctx.L, "laue")):
         gg = g if m == "tools" else g * p["scale"]
+        if m == "tools":      # laue's solvers do arithmetic on g before converting it: they take arrays only (not part of the property)
+            gg = gen.as_form(gg, int(p["twoth"] * 1e6))
         try:
             res[m, "general"] = mod.find_omega_general(gg, twoth, chi, wedge)
             res[m, "quart"] = mod.find_omega_quart(gg, twoth, chi, wedge)
